@@ -227,8 +227,14 @@ func minCircularLen(par params, fwd, rev primer) int {
 }
 
 func genParams(t *rapid.T, circular bool) params {
+	fwd, rev := genPrimerPair(t)
+	return genParamsFor(t, circular, fwd, rev)
+}
+
+// genParamsFor draws everything but the primers (which the caller drew first).
+func genParamsFor(t *rapid.T, circular bool, fwdPrimer, revPrimer string) params {
 	var par params
-	par.Fwd, par.Rev = genPrimerPair(t)
+	par.Fwd, par.Rev = fwdPrimer, revPrimer
 	par.FwdErr = rapid.SampledFrom([]int{0, 0, 1, 1, 2, 3}).Draw(t, "fwd_budget")
 	if rapid.IntRange(0, 2).Draw(t, "same_budget") > 0 {
 		par.RevErr = par.FwdErr
